@@ -4,7 +4,7 @@
    measure_number_map / metrical_position_map of partitura/score.py; the same definitions are evaluated
    on every generated part by the correspondence check.
    in_force tbl t v  :=  (k, v) is the entry of tbl with the greatest start k <= t  (Model/C02.v). *)
-From PV Require Import Lib.Base Lib.Round Model.C02 Model.C10 Model.C10_Impl Gen.C10_Tab Proofs.C02_lib Model.C10_Hist Proofs.C10 Proofs.C10_Impl Proofs.C10_Bar Proofs.C10_Hist.
+From PV Require Import Lib.Base Lib.Round Model.C02 Model.C10 Model.C10_Impl Gen.C10_Tab Proofs.C02_lib Model.C10_Hist Model.C10_Obj Model.C10_NA Proofs.C10 Proofs.C10_Impl Proofs.C10_Bar Proofs.C10_Hist Proofs.C10_Obj Proofs.C10_NA.
 From Coq Require Import QArith.
 #[local] Open Scope Z_scope.
 
@@ -414,3 +414,143 @@ Theorem history_memo_refuted :
   hrun ks_rows false false (hinit ex10_oneks) ops = hspec ks_rows ex10_oneks [] ops.
 Proof. exact Proofs.C10_Hist.history_memo_refuted. Qed.
 Print Assumptions history_memo_refuted.
+
+(* ======================================================================================================
+   HISTORIES OF THE COMPOSITE MAP OBJECTS (Model/C10_Obj.v): clef_map's collator (captures the list of per-staff
+   interpolators, hence the number of staves) and metrical_position_map's int_interp1d (captures the barlines, or nothing
+   with fewer than two measures).  build = what the access computes from the part, ans = one call of the closure, wr = the
+   caller's in-place write; returned arrays live in output buffers.  For ANY history of edits, map requests, calls and writes:
+   (1) a call through map object i returns what the closure built from the part as it was when object i was requested
+       returns; (2) the arrays the caller holds at the end are independent values: array k = the result of call k with the
+       caller's own writes into k applied (ospec_held) -- no later call, write elsewhere, edit or other map object changes it *)
+Theorem obj_history_spec : forall (P T R V : Type) (build : P -> T) (ans : T -> query -> R) (wr : V -> R -> R)
+    (same_shape : R -> R -> bool) p ops,
+  orun build ans wr same_shape false false (oinit p) ops = ospec_obs build ans p [] ops /\
+  oheld (oend build ans wr same_shape false false (oinit p) ops) = map Some (ospec_held build ans wr p [] [] ops).
+Proof. exact @Proofs.C10_Obj.obj_history_spec. Qed.
+Print Assumptions obj_history_spec.
+
+(* observation = f (current state): a map requested now and called now = the closure built from the part as it is now *)
+Theorem obj_history_current : forall (P T R V : Type) (build : P -> T) (ans : T -> query -> R) (wr : V -> R -> R)
+    (same_shape : R -> R -> bool) p ops q,
+  orun build ans wr same_shape false false (oinit p) (ops ++ [OGet; OQuery (ogets ops) q]) =
+  orun build ans wr same_shape false false (oinit p) ops ++ [ans (build (ocur p ops)) q].
+Proof. exact @Proofs.C10_Obj.obj_history_current. Qed.
+Print Assumptions obj_history_current.
+
+(* without writes by the caller every held array is, at the end, exactly what its call returned *)
+Theorem obj_held_unchanged : forall (P T R V : Type) (build : P -> T) (ans : T -> query -> R) (wr : V -> R -> R)
+    (same_shape : R -> R -> bool) p ops, no_writes ops = true ->
+  oheld (oend build ans wr same_shape false false (oinit p) ops) =
+  map Some (orun build ans wr same_shape false false (oinit p) ops).
+Proof. exact @Proofs.C10_Obj.obj_held_unchanged. Qed.
+Print Assumptions obj_held_unchanged.
+
+(* composed with impl_clef_spec / impl_metpos_spec: after ANY history the clef map requested now has one result per staff
+   1..number_of_staves of the part AS IT IS NOW, each the clef in force on that staff; the metrical position map requested
+   now gives (t - barline, bar length) of the part as it is now -- scalar and vector queries *)
+Theorem clef_history_current : forall cp ops q, q_ge (c_first (ocur cp ops)) q ->
+  orun clef_build clef_ans clef_wr clef_shape false false (oinit cp) (ops ++ [OGet; OQuery (ogets ops) q]) =
+  orun clef_build clef_ans clef_wr clef_shape false false (oinit cp) ops ++
+    [map (fun s => lift (clef_staff (ocur cp ops) s) q) (zrange 1 (Z.to_nat (c_nstaves (ocur cp ops))))].
+Proof. exact Proofs.C10_Obj.clef_history_current. Qed.
+Print Assumptions clef_history_current.
+
+Theorem metpos_history_current : forall cp ops q k0 v0 r, meas_wf (c_meas (ocur cp ops)) ->
+  meas_tbl (ocur cp ops) = (k0, v0) :: r -> q_ge k0 q ->
+  orun mp_build mp_ans mp_wr res_same_shape false false (oinit cp) (ops ++ [OGet; OQuery (ogets ops) q]) =
+  orun mp_build mp_ans mp_wr res_same_shape false false (oinit cp) ops ++ [lift (metpos (ocur cp ops)) q].
+Proof. exact Proofs.C10_Obj.metpos_history_current. Qed.
+Print Assumptions metpos_history_current.
+
+(* non-vacuity: a history with every kind of step on the worked part *)
+Theorem obj_history_example :
+  let ops := [OGet; OQuery 0 (QScalar 2); OQuery 0 (QVec [25; 2]); OWrite 0 (-7); OEdit ex10_3staves; OGet;
+              OQuery 1 (QScalar 2); OQuery 0 (QScalar 2)] in
+  orun clef_build clef_ans clef_wr clef_shape false false (oinit ex10) ops =
+    [[RScalar (Some (1, 0, 2, 0)); RScalar (Some (2, 6, 0, 0))];
+     [RVec [Some (1, 1, 4, 0); Some (1, 0, 2, 0)]; RVec [Some (2, 6, 0, 0); Some (2, 6, 0, 0)]];
+     [RScalar (Some (1, 0, 2, 0)); RScalar (Some (2, 6, 0, 0)); RScalar (Some (3, 6, 0, 0))];
+     [RScalar (Some (1, 0, 2, 0)); RScalar (Some (2, 6, 0, 0))]] /\
+  nth 0 (oheld (oend clef_build clef_ans clef_wr clef_shape false false (oinit ex10) ops)) None =
+    Some [RScalar (Some (-7, -7, -7, -7)); RScalar (Some (-7, -7, -7, -7))] /\
+  orun mp_build mp_ans mp_wr res_same_shape false false (oinit ex10) [OGet; OQuery 0 (QScalar 2); OQuery 0 (QVec [25; 2])] =
+    [RScalar (Some (14, 16)); RVec [Some (5, 16); Some (14, 16)]].
+Proof. exact Proofs.C10_Obj.obj_history_example. Qed.
+Print Assumptions obj_history_example.
+
+(* the two ways such code goes wrong are expressible and refuted: one output buffer per result shape handed out again
+   (share: the second scalar call overwrites the array the caller got from the first), the captured state cached on the
+   part (memo: still two rows after a third staff appeared) *)
+Theorem obj_share_refuted :
+  let ops := [OGet; OQuery 0 (QScalar 2); OQuery 0 (QScalar 25)] in
+  no_writes ops = true /\
+  orun clef_build clef_ans clef_wr clef_shape false true (oinit ex10) ops =
+    [[RScalar (Some (1, 0, 2, 0)); RScalar (Some (2, 6, 0, 0))]; [RScalar (Some (1, 1, 4, 0)); RScalar (Some (2, 6, 0, 0))]] /\
+  oheld (oend clef_build clef_ans clef_wr clef_shape false true (oinit ex10) ops) =
+    [Some [RScalar (Some (1, 1, 4, 0)); RScalar (Some (2, 6, 0, 0))]; Some [RScalar (Some (1, 1, 4, 0)); RScalar (Some (2, 6, 0, 0))]] /\
+  oheld (oend clef_build clef_ans clef_wr clef_shape false false (oinit ex10) ops) =
+    map Some (orun clef_build clef_ans clef_wr clef_shape false false (oinit ex10) ops).
+Proof. exact Proofs.C10_Obj.obj_share_refuted. Qed.
+Print Assumptions obj_share_refuted.
+
+Theorem obj_memo_refuted :
+  let ops := [OGet; OQuery 0 (QScalar 2); OEdit ex10_3staves; OGet; OQuery 1 (QScalar 2)] in
+  nth 1 (orun clef_build clef_ans clef_wr clef_shape true false (oinit ex10) ops) [] =
+    [RScalar (Some (1, 0, 2, 0)); RScalar (Some (2, 6, 0, 0))] /\
+  nth 1 (ospec_obs clef_build clef_ans ex10 [] ops) [] =
+    [RScalar (Some (1, 0, 2, 0)); RScalar (Some (2, 6, 0, 0)); RScalar (Some (3, 6, 0, 0))] /\
+  orun clef_build clef_ans clef_wr clef_shape false false (oinit ex10) ops = ospec_obs clef_build clef_ans ex10 [] ops.
+Proof. exact Proofs.C10_Obj.obj_memo_refuted. Qed.
+Print Assumptions obj_memo_refuted.
+
+(* ======================================================================================================
+   "THE MAPS AGREE WITH THE OPTIONAL NOTE-ARRAY COLUMNS DERIVED FROM THEM", at code level (Model/C10_NA.v: the loop of
+   note_array_from_note_list / rest_array_from_rest_list calls the map OBJECTS handed in with the scalar onset and unpacks
+   the results; is_downbeat = 1 if rel_onset_div == 0 else 0).  For the objects the code builds from ANY parts c1, c2, c3 (one
+   part for Part.note_array; objects a caller kept answer for the part as it was when they were requested: history_spec,
+   obj_history_spec) and ANY notes with onsets on the timeline, not before the first (corrected) measure start: the loop
+   succeeds; row i = (time signature in force at onset i, key signature in force, (is_downbeat, position, bar length)) *)
+Theorem code_na_columns : forall c1 c2 c3 (notes : list (Z * Z)) k0 v0 r, meas_wf (c_meas c3) -> meas_tbl c3 = (k0, v0) :: r ->
+  Forall (fun n => c_first c1 <= fst n /\ c_first c2 <= fst n /\ k0 <= fst n) notes ->
+  na_loop false (impl_ts c1) (impl_ks c2) (impl_metpos c3) notes =
+  Some (map (fun n => (na_ts c1 (fst n), na_ks c2 (fst n), na_metrical c3 (fst n))) notes).
+Proof. exact Proofs.C10_NA.code_na_columns. Qed.
+Print Assumptions code_na_columns.
+
+Theorem code_na_signatures : forall c1 c2 t, c_first c1 <= t -> c_first c2 <= t ->
+  unpack (impl_ts c1 (QScalar t)) = Some (ts_map c1 t) /\ unpack (impl_ks c2 (QScalar t)) = Some (ks_map c2 t).
+Proof. exact Proofs.C10_NA.code_na_signatures. Qed.
+Print Assumptions code_na_signatures.
+
+Theorem na_example :
+  meas_wf (c_meas ex10) /\ (exists v0 r, meas_tbl ex10 = (-12, v0) :: r) /\
+  na_loop false (impl_ts ex10) (impl_ks ex10) (impl_metpos ex10) [(2, 3); (19, 1); (20, 4)] =
+    Some [((4, 4, 4), (-3, -1), (0, 14, 16)); ((4, 4, 4), (-3, -1), (0, 15, 16)); ((4, 4, 4), (2, 1), (1, 0, 16))].
+Proof. exact Proofs.C10_NA.na_example. Qed.
+Print Assumptions na_example.
+
+(* the statement discriminates: columns looked up at the END of the note give the key after the change for a note ending on
+   it; a map object called with a one-element vector cannot be unpacked *)
+Theorem na_at_end_refuted :
+  na_loop true (impl_ts ex10) (impl_ks ex10) (impl_metpos ex10) [(19, 1)] = Some [((4, 4, 4), (2, 1), (1, 0, 16))] /\
+  na_loop false (impl_ts ex10) (impl_ks ex10) (impl_metpos ex10) [(19, 1)] = Some [((4, 4, 4), (-3, -1), (0, 15, 16))] /\
+  na_row_q (impl_ts ex10) (impl_ks ex10) (impl_metpos ex10) (QVec [19]) = None.
+Proof. exact Proofs.C10_NA.na_at_end_refuted. Qed.
+Print Assumptions na_at_end_refuted.
+
+(* --- the four simple maps (time / key signature, measure, measure number) are objects of the same machine: the history
+   machine of Model/C10_Hist.v and the object machine (build = the sample table, ans = the interp1d wrapper, wr = fill) return
+   the same on EVERY history, so the held-array statements above hold for all six maps *)
+Theorem hist_machines_agree : forall (P A : Type) (rows : P -> list (Z * A)) (shape : res (option A) -> res (option A) -> bool) p ops,
+  hrun rows false false (hinit p) ops =
+  orun rows (@wrap_prev A) (@fill A) shape false false (oinit p) (map hop_oop ops).
+Proof. exact Proofs.C10_Obj.hist_machines_agree. Qed.
+Print Assumptions hist_machines_agree.
+
+Theorem simple_held_unchanged : forall (P A : Type) (rows : P -> list (Z * A)) shape p (ops : list (hop P A)),
+  no_writes (map hop_oop ops) = true ->
+  oheld (oend rows (@wrap_prev A) (@fill A) shape false false (oinit p) (map hop_oop ops)) =
+  map Some (hrun rows false false (hinit p) ops).
+Proof. exact Proofs.C10_Obj.simple_held_unchanged. Qed.
+Print Assumptions simple_held_unchanged.
